@@ -9,7 +9,8 @@ EXTENDS TreeOrder, VerifEmit
 
 CONSTANTS GenDepth,     \* simulation: emit at this depth (0 = exhaustive mode: emit every node)
           GenHistory,   \* emit history-tree expectations for every set of <= 2 stored heads
-          GenReject     \* generate rejected deliveries (DeliverRejected) and the step that follows them
+          GenReject,    \* generate rejected deliveries (DeliverRejected) and the step that follows them
+          GenOnlyAfterReject \* exhaustive mode: emit only behaviours that end with <rejected delivery, next step>
 
 VARIABLES hist,
           rj            \* [ph, r]: ph = 1 right after a rejected delivery to tree r, 2 one step later, else 0.
@@ -108,6 +109,8 @@ Behaviour == [spec |-> "TreeOrder", fix |-> FixCommonSnapshot,
               final |-> [i \in 1..Cardinality(Replicas) |->
                            [r |-> SetToSeq(Replicas)[i], hist |-> HistExp(rep[SetToSeq(Replicas)[i]])]]]
 
-EmitNow == hist # <<>> /\ (GenDepth = 0 \/ hist[Len(hist)].act = "Done")
+EmitNow == /\ hist # <<>>
+           /\ (GenDepth = 0 \/ hist[Len(hist)].act = "Done")
+           /\ (GenOnlyAfterReject => rj.ph = 2)
 Emit == EmitWhen(EmitNow, Behaviour)
 =============================================================================
